@@ -35,7 +35,13 @@ pub fn grammar(_args: &[String]) -> anyhow::Result<()> {
             Err(_) => ("panic".to_owned(), String::new(), 0),
         };
         n += 1;
-        let ok = kind == e["kind"].as_str().unwrap_or("") && (!e["ok"].as_bool().unwrap_or(false) || (host == e["host"].as_str().unwrap_or("") && port == e["port"].as_i64().unwrap_or(-1)));
+        let lenient = e["kind"].as_str() == Some("lenient");
+        let ok = if lenient {
+            // no host of the grammar: malformed, so refused (and certainly no panic)
+            kind == "refuse"
+        } else {
+            kind == e["kind"].as_str().unwrap_or("") && (!e["ok"].as_bool().unwrap_or(false) || (host == e["host"].as_str().unwrap_or("") && port == e["port"].as_i64().unwrap_or(-1)))
+        };
         if !ok {
             bad += 1;
             println!("{}", json!({"scenario": sc, "ok": false, "got": {"kind": kind, "host": host, "port": port}, "detail": format!("{:?}", got.as_ref().map(|r| r.as_ref().map(|x| x.1.to_string())))}));
